@@ -33,7 +33,8 @@ def _problem():
     sw = st.builds(lambda md, s, fl: (md, s, fl), gen.model_shallowwater(), gen.state_sw(False, lnrange=0.5, frmax=1.2, smooth_amp=0.1), st.sampled_from(["hll", "rusanov"]))
     e2d = st.builds(lambda md, s, fl, me, k: (md, s, fl, me, k), gen.model_euler2d(), gen.state_euler2d(False, lnrange=0.4, machmax=1.0, smooth_amp=0.1), st.sampled_from(["hlle", "centered"]),
                     gen.mesh2d(2, 3), st.one_of(st.none(), gen.f(-1, 1)))
-    return st.one_of(conv, conv, burg, eul, sw, e2d)
+    spiky = st.builds(lambda s: (dict(name="burgers"), s, None), gen.state_burgers_spiky())        # time step varies strongly from one iteration to the next
+    return st.one_of(conv, conv, burg, spiky, eul, sw, e2d)
 
 
 def _build(case):
